@@ -144,6 +144,39 @@ let () =
              Printf.sprintf "cs=%d ext=%s p=%s v=%s src=%s" (List.length c) (join m'.c14_ext) (join (List.map (c14_map m') tu))
                (join_i (List.map (fun i -> getv (c14_mdarray_get c m' i)) tu)) (join_i src)
          | None -> "UB-OR-ASSERT"), ""
+    | "swp" ->
+        let f = str "f" in
+        let e1 = ext_of p e and e2 = ext_of p (zs (str "E2")) in
+        let s2 = zs (str "S2") and b2 = num "base2" in
+        let vstate (v : z * c14_mapping) =
+          let m = snd v in
+          let tu = c14_tuples m.c14_ext in
+          let size = int_of_z (c14_md_size m) in
+          Printf.sprintf "ext=%s st=%s rss=%d exh=%s size=%d empty=%s acc=1 p=%s" (join m.c14_ext) (join (c14_strides_of m))
+            (int_of_z (c14_required_span_size m)) (b01 (c14_is_exhaustive m)) size (b01 (size = 0))
+            (join (List.map (c14_view_offset v) tu)) in
+        let views tag lay =
+          let m1 = mk lay e1 s and m2 = mk lay e2 s2 in
+          let x = (z_of_int base, m1) and y = (z_of_int b2, m2) in
+          let (x', y') = if f = "swap" then c14_view_swap x y else c14_view_assign x y in
+          Printf.sprintf "%s a %s ; b %s ; q eq0=%s ne=1 asg=1 dz=1 uni=1 str=1 au=1 ae=%s as=1 rank=%d rd=%d sr=1" tag (vstate x') (vstate y')
+            (b01 (c14_mapping_eqb m1 m2)) (match lay with C14_Stride -> "0" | _ -> "1") (List.length p) (int_of_nat (c14_rank_dynamic p)) in
+        let astate (a : z list * c14_mapping) =
+          let m = snd a in
+          let tu = c14_tuples m.c14_ext in
+          let size = int_of_z (c14_md_size m) in
+          Printf.sprintf "ext=%s st=%s cs=%d size=%d empty=%s v=%s" (join m.c14_ext) (join (c14_strides_of m)) (List.length (fst a)) size
+            (b01 (size = 0)) (join_i (List.map (fun i -> getv (c14_array_get a i)) tu)) in
+        let filled m v0 =
+          let _, w = List.fold_left (fun (n, st) i ->
+            (n + 1, match c14_mdarray_set st m i (z_of_int (v0 + n)) with Some st' -> st' | None -> st)) (0, c14_mdarray_new m Z0) (c14_tuples m.c14_ext) in w in
+        let arrays tag lay =
+          let m1 = mk lay e1 [] and m2 = mk lay e2 [] in
+          let x = (filled m1 7000, m1) and y = (filled m2 8000, m2) in
+          let (x', y') = if f = "swap" then c14_array_swap x y else c14_array_assign x y in
+          Printf.sprintf "%s a %s ; b %s ; q eq0=%s eqc=1 ex=1 ptr=1 uni=1 exh=1 str=1 au=1 ae=1 as=1 rank=%d rd=%d" tag (astate x')
+            (if f = "move" then "-" else astate y') (b01 (c14_mapping_eqb m1 m2 && fst x = fst y)) (List.length p) (int_of_nat (c14_rank_dynamic p)) in
+        String.concat " | " [views "L" C14_Left; views "R" C14_Right; views "S" C14_Stride; arrays "AL" C14_Left; arrays "AR" C14_Right], ""
     | "xcv" ->
         (* inst = "t:p>t':p'" : source pattern p, target pattern p' *)
         let k = String.index inst '>' in
@@ -180,6 +213,10 @@ let () =
         let m = mk (lay_of (str "lay")) [] [] in
         let st = c14_to_stride m in
         Printf.sprintf "D %s | C %s | O %s" (describe (mk C14_Stride [] [])) (describe st) (describe st), ""
+    | "p6crit" ->
+        let o = num "o" and len = num "len" in
+        let l = iota len (fun k -> 1000 + o + k) and l3 = iota 3 (fun k -> 1000 + o + k) in
+        Printf.sprintf "rv=%s rv3=%s n=%d" (join_i (List.rev l)) (join_i (List.rev l3)) len, ""
     | "p4eq" ->
         let e = ext_of p e in
         let m = mk (lay_of (str "lay")) e [] in
@@ -217,6 +254,7 @@ let () =
              let l = iota (int_of_z len) (fun k -> 1000 + int_of_z (c14_span_index sp (z_of_int k))) in
              "fw=" ^ join_i l ^ " rv=" ^ join_i (List.rev l)
          | "conv" -> desc None (Some sp)
+         | "asg" -> desc ex (Some sp) ^ " ok=1"
          | _ -> "UNKNOWN-SPAN-OP"), ""
     | _ -> "UNKNOWN-OP", "" in
     print_string out; print_string " ## "; print_endline spec
